@@ -41,8 +41,8 @@ static std::vector<Op> buildAlphabet(const std::string& name, Limits& L, const s
         A.push_back(opSubmitStored(0, "n", L)); A.push_back(opSubmitStored(0, "app", L));   // a stored frame handed back to the object
         for (auto w : {"both", "pt", "an"}) A.push_back(opFrameFree(w, 0, L));
         A.push_back(opFrameEmpty(L));
-        for (auto d : {"ok", "ok2", "fewer", "more", "none", "nocol", "dup", "dup2", "ragged", "surplus"}) A.push_back(opColPoint(d, 0, L));
-        for (auto d : {"ok", "ok2", "fewer", "more", "none", "nocol", "sub_fewer", "sub_more", "dup", "dup2", "ragged", "surplus"}) A.push_back(opColAnalog(d, 0, L));
+        for (auto d : {"ok", "ok2", "fewer", "more", "none", "nocol", "dup", "dup2", "ragged", "surplus", "otherkind"}) A.push_back(opColPoint(d, 0, L));
+        for (auto d : {"ok", "ok2", "fewer", "more", "none", "nocol", "sub_fewer", "sub_more", "dup", "dup2", "ragged", "surplus", "otherkind"}) A.push_back(opColAnalog(d, 0, L));
         A.push_back(opParamBad("NEWB", true, false)); A.push_back(opParamBad("POINT", false, true)); A.push_back(opParamBad("NEWB", false, false));
         A.push_back(opLock("NOPE", true)); A.push_back(opLock("NOPE", false));
         A.push_back(opParamMandatoryBad("POINT", "RATE", "int")); A.push_back(opParamMandatoryBad("POINT", "USED", "empty-int")); A.push_back(opParamMandatoryBad("ANALOG", "USED", "string")); A.push_back(opParamMandatoryBad("POINT", "FRAMES", "float"));   // (ANALOG:RATE is only read when POINT:RATE is set: not refused in every state, hence not generated)
@@ -84,8 +84,8 @@ static std::vector<Op> buildAlphabet(const std::string& name, Limits& L, const s
             std::vector<std::string> dv = {"pt_extra", "pt_missing", "pt_renamed", "ch_extra", "ch_missing", "sub_extra", "an_none"};
             for (size_t i = 0; i < dv.size(); ++i) for (size_t j = i + 1; j < dv.size(); ++j) A.push_back(opFrame(dv[i] + "+" + dv[j], "app", 0, L));
         }
-        for (auto d : {"ok", "ok2", "fewer", "more", "none", "nocol", "dup", "dup2", "ragged"}) A.push_back(opColPoint(d, 0, L));
-        for (auto d : {"ok", "ok2", "fewer", "more", "none", "nocol", "sub_fewer", "sub_more", "dup", "dup2", "ragged"}) A.push_back(opColAnalog(d, 0, L));
+        for (auto d : {"ok", "ok2", "fewer", "more", "none", "nocol", "dup", "dup2", "ragged", "otherkind"}) A.push_back(opColPoint(d, 0, L));
+        for (auto d : {"ok", "ok2", "fewer", "more", "none", "nocol", "sub_fewer", "sub_more", "dup", "dup2", "ragged", "otherkind"}) A.push_back(opColAnalog(d, 0, L));
         A.push_back(opReload());
     } else if (name == "params") {  // C09: add / replace / lock / unlock over existing and new groups
         L.maxFrames = 1; L.maxPoints = 1; L.maxChans = 1; L.maxGroups = 5; L.maxParamsPerGroup = 12;
@@ -93,6 +93,7 @@ static std::vector<Op> buildAlphabet(const std::string& name, Limits& L, const s
         for (auto g : {"POINT", "NEWG", "G2"}) for (auto n : {"X", "Y"}) for (auto& v : vals) A.push_back(opParam(g, n, pv(v), "d0", false, L));
         A.push_back(opParam("ANALOG", "X", pv("s22"), "d20", true, L)); A.push_back(opParam("NEWG", "X", pv("i7"), "d20", true, L)); A.push_back(opParam("POINT", "UNITS", pv("s1"), "d1", false, L));
         A.push_back(opParam("newg", "x", pv("f1"), "d1", false, L));
+        A.push_back(opParam("POINT", "FRAMES", pv("ineg"), "d0", false, L)); A.push_back(opParam("NEWG", "FRAMES", pv("ineg"), "d0", false, L)); A.push_back(opParam("ANALOG", "USED", pv("i7"), "d0", false, L));   // maintained names given unusual but well-formed values: stored as given
         A.push_back(opParam("POINT", "Rate", pv("i7"), "d1", false, L)); A.push_back(opParam("NEWG", "x", pv("s2"), "d0", true, L));   // names that differ from an existing one by case only are other parameters
         for (auto g : {"G2", "G3", "G4", "G5", "G6", "G7"}) A.push_back(opParamFromStored(g, L));
         for (auto src : {"B3", "B22", "S42", "F23"}) { A.push_back(opParamCopyOfStored("EXTRA", src, "NEWG", "X")); A.push_back(opParamCopyOfStored("EXTRA", src, "POINT", "Y")); }
@@ -161,6 +162,7 @@ static std::vector<Op> buildAlphabet(const std::string& name, Limits& L, const s
         for (auto d : {"ok", "ok2", "fewer", "more", "none", "nocol", "sub_fewer", "sub_more", "dup", "dup2", "ragged"}) A.push_back(opColAnalog(d, 0, L));
         A.push_back(opParamBad("NEWB", true, false)); A.push_back(opParamBad("POINT", false, true));
         A.push_back(opParamMandatoryBad("POINT", "RATE", "int")); A.push_back(opParamMandatoryBad("ANALOG", "USED", "string")); A.push_back(opParamMandatoryBad("POINT", "LABELS", "int")); A.push_back(opParamMandatoryBad("ANALOG", "RATE", "empty-float"));
+        A.push_back(opParamMandatoryBad("ANALOG", "SCALE", "empty-int")); A.push_back(opParamMandatoryBad("ANALOG", "UNITS", "empty-int")); A.push_back(opParamMandatoryBad("POINT", "LABELS", "empty-float")); A.push_back(opParamMandatoryBad("ANALOG", "OFFSET", "empty-float"));   // empty AND of the wrong type
         A.push_back(opLock("NOPE", true));
         A.push_back(opReload());
     } else if (name == "smoke") {
